@@ -2,6 +2,7 @@ package simrt
 
 import (
 	"sync"
+	"time"
 	"unsafe"
 )
 
@@ -40,7 +41,15 @@ func (m *RWMutexState) addReader(t *Task) {
 func (m *RWMutexState) Lock() {
 	w := active
 	if w == nil || w.cur == nil {
-		m.Real.Lock()
+		// outside a simulated world one goroutine owns the instance: a lock that cannot be taken now
+		// will never be released (self-deadlock, e.g. a forgotten Unlock) - report instead of hanging
+		// (process-wide locks may be contended for a moment by the checker's own goroutines, hence the wait)
+		for i := 0; !m.Real.TryLock(); i++ {
+			if i > 3000 {
+				panic(SelfDeadlock{})
+			}
+			time.Sleep(time.Millisecond)
+		}
 		return
 	}
 	t := w.cur
@@ -116,7 +125,12 @@ func (m *RWMutexState) Unlock() {
 func (m *RWMutexState) RLock() {
 	w := active
 	if w == nil || w.cur == nil {
-		m.Real.RLock()
+		for i := 0; !m.Real.TryRLock(); i++ {
+			if i > 3000 {
+				panic(SelfDeadlock{})
+			}
+			time.Sleep(time.Millisecond)
+		}
 		return
 	}
 	t := w.cur
